@@ -709,6 +709,37 @@ Builder::Builder(int cls)
             break;
     }
 }
+Builder::Builder(int cls, const uint8_t* w, size_t n)
+    : d(new Impl)
+{
+    preCall();
+    d->cls = cls;
+    switch (cls)
+    {
+        case wire::K_CAN:
+            d->obj = std::make_unique<CanPayload>(w, n);
+            break;
+        case wire::K_CANFD:
+            d->obj = std::make_unique<CanFdPayload>(w, n);
+            break;
+        case wire::K_LIN:
+            d->obj = std::make_unique<LinPayload>(w, n);
+            break;
+        case wire::K_ANALOG:
+            d->obj = std::make_unique<AnalogPayload>(w, n);
+            break;
+        case wire::K_ETH:
+            d->obj = std::make_unique<EthernetPayload>(w, n);
+            break;
+        case wire::K_CMSTAT:
+            d->obj = std::make_unique<CaptureModulePayload>(w, n);
+            break;
+        default:
+            d->cls = wire::K_IFSTAT;
+            d->obj = std::make_unique<InterfacePayload>(w, n);
+            break;
+    }
+}
 Builder::~Builder()
 {
     delete d;
